@@ -239,12 +239,42 @@ impl RealtimeCompressor {
     }
 
     /// Decompress data
+    ///
+    /// The first byte of a block says how it was produced: [`Self::BLOCK_STORED`] for the
+    /// uncompressed fallback (deadline exceeded, or a tiny payload in ultra-low-latency
+    /// mode), [`Self::BLOCK_COMPRESSED`] for the output of the configured algorithm.
     pub async fn decompress(&self, data: &[u8]) -> Result<Vec<u8>> {
-        let compressor = self.compressor.read()
-            .map_err(|e| crate::error::ZiporaError::system_error(
-                format!("RealtimeCompressor: compressor RwLock poisoned: {}", e)
-            ))?;
-        compressor.decompress(data)
+        let (tag, body) = match data.split_first() {
+            Some(parts) => parts,
+            None => return Ok(Vec::new()),
+        };
+        match *tag {
+            Self::BLOCK_STORED => Ok(body.to_vec()),
+            Self::BLOCK_COMPRESSED => {
+                let compressor = self.compressor.read()
+                    .map_err(|e| crate::error::ZiporaError::system_error(
+                        format!("RealtimeCompressor: compressor RwLock poisoned: {}", e)
+                    ))?;
+                compressor.decompress(body)
+            }
+            other => Err(ZiporaError::invalid_data(format!(
+                "unknown real-time block tag {}",
+                other
+            ))),
+        }
+    }
+
+    /// Block tag: payload stored without compression
+    const BLOCK_STORED: u8 = 0;
+    /// Block tag: payload compressed by the configured algorithm
+    const BLOCK_COMPRESSED: u8 = 1;
+
+    /// Prefix a block with its tag
+    fn tagged(tag: u8, body: &[u8]) -> Vec<u8> {
+        let mut out = Vec::with_capacity(body.len() + 1);
+        out.push(tag);
+        out.extend_from_slice(body);
+        out
     }
 
     /// Batch compress multiple items
@@ -305,14 +335,14 @@ impl RealtimeCompressor {
     async fn compress_internal(&self, data: &[u8]) -> Result<Vec<u8>> {
         // For very small data, consider skipping compression
         if data.len() < 64 && self.config.mode == CompressionMode::UltraLowLatency {
-            return Ok(data.to_vec());
+            return Ok(Self::tagged(Self::BLOCK_STORED, data));
         }
 
         let compressor = self.compressor.read()
             .map_err(|e| crate::error::ZiporaError::system_error(
                 format!("RealtimeCompressor: compressor RwLock poisoned: {}", e)
             ))?;
-        compressor.compress(data)
+        Ok(Self::tagged(Self::BLOCK_COMPRESSED, &compressor.compress(data)?))
     }
 
     /// Handle timeout by falling back to no compression
@@ -327,8 +357,9 @@ impl RealtimeCompressor {
         }
 
         if self.config.fallback_on_timeout {
-            // Use fallback compressor (no-op)
-            self.fallback_compressor.compress(data)
+            // Use fallback compressor (no-op); the tag tells decompress not to run the
+            // configured algorithm's decoder on it
+            Ok(Self::tagged(Self::BLOCK_STORED, &self.fallback_compressor.compress(data)?))
         } else {
             Err(ZiporaError::configuration("compression deadline exceeded"))
         }
